@@ -156,7 +156,7 @@ func ruleCodecSym(c *RC) *RuleResult {
 	}
 	// derivation site of changeView.newViewNumber in the message decoder
 	r.Sites++
-	md := c.Prog.ByName["internal/consensus:message.DecodeBinary"]
+	md := c.messageDecoder()
 	derived := false
 	for _, mem := range c.clusterFns(md) {
 		ast.Inspect(mem.Decl.Body, func(n ast.Node) bool {
@@ -305,7 +305,7 @@ func ruleDecodeErr(c *RC) *RuleResult {
 	}
 	// default arm of the kind switch in message.DecodeBinary returns an error
 	r.Sites++
-	md := c.Prog.ByName["internal/consensus:message.DecodeBinary"]
+	md := c.messageDecoder()
 	okDefault := false
 	for _, mem := range c.clusterFns(md) {
 		ast.Inspect(mem.Decl.Body, func(n ast.Node) bool {
@@ -386,7 +386,7 @@ func returnsError(info *types.Info, call *ast.CallExpr) bool {
 // A-TYPE-SWITCH
 func ruleTypeSwitch(c *RC) *RuleResult {
 	r := &RuleResult{Rule: "A-TYPE-SWITCH", Kind: "AGREE", Doc: "recovery message: AddPayload has an arm for every kind the library packs; every Get* reconstruction uses the kind constant and body type of the list it reads and copies every body field"}
-	add := c.Prog.ByName["internal/consensus:recoveryMessage.AddPayload"]
+	add := c.recoveryImpl("AddPayload")
 	if add == nil {
 		r.unresolved("recoveryMessage.AddPayload")
 		return r
@@ -430,7 +430,7 @@ func ruleTypeSwitch(c *RC) *RuleResult {
 	}
 	// body type per kind from message.DecodeBinary
 	bodyOf := map[string]string{"PreCommitType": "preCommit"}
-	for _, md := range c.clusterFns(c.Prog.ByName["internal/consensus:message.DecodeBinary"]) {
+	for _, md := range c.clusterFns(c.messageDecoder()) {
 		ast.Inspect(md.Decl.Body, func(n ast.Node) bool {
 			sw, ok := n.(*ast.SwitchStmt)
 			if !ok {
@@ -463,7 +463,7 @@ func ruleTypeSwitch(c *RC) *RuleResult {
 	stampViaMaker := false
 	getters := map[string]string{"GetPrepareRequest": "PrepareRequestType", "GetPrepareResponses": "PrepareResponseType", "GetChangeViews": "ChangeViewType", "GetPreCommits": "PreCommitType", "GetCommits": "CommitType"}
 	for g, kind := range getters {
-		fn := c.Prog.ByName["internal/consensus:recoveryMessage."+g]
+		fn := c.recoveryImpl(g)
 		r.Sites++
 		if fn == nil {
 			r.unresolved("recoveryMessage." + g)
@@ -541,7 +541,7 @@ func ruleTypeSwitch(c *RC) *RuleResult {
 	}
 	// the rebuilt proposal is stamped with the primary index
 	r.Sites++
-	if fn := c.Prog.ByName["internal/consensus:recoveryMessage.GetPrepareRequest"]; fn != nil && len(fn.Params) == 3 {
+	if fn := c.recoveryImpl("GetPrepareRequest"); fn != nil && len(fn.Params) == 3 {
 		okStamp := stampViaMaker
 		for _, s := range c.A.FnSites[fn] {
 			if s.Kind == "call" && strings.HasSuffix(s.Callee, "SetValidatorIndex") {
@@ -907,7 +907,7 @@ func ruleSig(c *RC) *RuleResult {
 		}
 	}
 	// merkle
-	bt := c.Prog.ByName["internal/merkle:buildTree"]
+	bt := c.merkleBuilder()
 	r.Sites++
 	if bt == nil {
 		r.unresolved("merkle.buildTree")
